@@ -168,7 +168,8 @@ Fixpoint json_parse_tree (fuel : nat) (here : path) (parent : ptr) (node : aval)
                                 end
                             end) 0%nat chl with
                    | Err e => Err e
-                   | Ok children =>
+                   | Ok [] => Err ParsingException     (* fix: a relation without children is rejected *)
+                   | Ok ((_ :: _) as children) =>
                        match jget "type" rel with Err e => Err e | Ok tv =>
                        match jstr tv with Err e => Err e | Ok rtype =>
                        match json_relation_cards rtype rel (List.length children) with
